@@ -26,10 +26,10 @@ from .. import donors as DN
 ID = "C14"
 
 # ---- tolerances ---------------------------------------------------------------------------------------------------
-BAND = Ref.BAND  # 1e-9 relative: "Tol: 1e-9 relative where TWAP enters" (float math.log/pow in calc_twap_price)
+BAND = Ref.BAND  # 1e-11 relative where the TWAP enters (float math.log/pow in calc_twap_price: about 1e-14 at worst)
 EXACT = Fraction(1, 10**30)  # "exact elsewhere": demeter computes with 35-digit Decimals; 1e-30 relative is rounding
 LP_TOL = Fraction(1, 10**12)  # LP token amounts: Q64.96 integer sqrt prices vs my 60-digit sqrt (relative to the
-#                               position's size); far below the 1e-9 band, far above the ~1e-28 representation error
+#                               position's size); far below the 1e-11 band, far above the ~1e-28 representation error
 SNAP = Fraction(1, 10**5)  # Asset.sub empties a wallet whose balance is within 1e-5 (relative) of the amount taken
 
 
@@ -73,8 +73,14 @@ def generate(seed: int, tier: str = "quick") -> dict:
     n = rw.choice([8, 10, 12, 16, 20, 24, 30, 40] if tier == "quick" else [10, 16, 24, 40, 60, 80])
     start = pd.Timestamp("2023-08-13 00:00:00") + pd.Timedelta(minutes=rw.randint(0, 2000))
     still = rw.random() < 0.5
+    # a history longer than a day (5-minute bars): "the trailing seven minutes" are seven minutes of THAT day
+    two_days = R.sub(seed, "two_days").random() < 0.03
+    if two_days:
+        n, still = 1440 + R.sub(seed, "two_days_n").choice([25, 60, 120]), False
     p0 = math.exp(rw.uniform(math.log(700), math.log(4500)))
     vol = 0.0 if still else rw.choice([0.0002, 0.001, 0.004, 0.01])
+    if two_days:
+        vol = R.sub(seed, "two_days_vol").choice([0.0005, 0.001, 0.002])
     eth = S.gen_eth_path(rw, n, p0, vol)
     nf0 = rw.uniform(0.15, 0.95)
     prem0 = rw.uniform(-0.02, 0.08)
@@ -236,6 +242,13 @@ def generate(seed: int, tier: str = "quick") -> dict:
     # resampled runs: the same history on 2- or 5-minute bars (squeeth frame and pool price resampled with 'first');
     # the TWAP window stays seven minutes of time, i.e. 4 rows / 2 rows
     k = rw.choice([1, 1, 1, 1, 1, 2, 5])
+    if two_days:
+        k = 5
+        rl = R.sub(seed, "two_days_reads")
+        for _ in range(3):
+            program.append({"bar": rl.randint(1440, n - 1), "phase": rl.choice(PHASES), "op": "sq.read_twap", "m": "sq",
+                            "a": {"token": rl.choice(["WETH", "OSQTH"]), "back": rl.choice([0, 0, 1, 3])}})
+        faults.append({"kind": "history_longer_than_a_day", "bar": 0})
     if k > 1 and n >= 3 * k:
         world["interval"] = f"{k}min"
         labels = DN.bar_times(world)
@@ -908,7 +921,7 @@ BUDGET = {"quick": {"runs": 3000, "wall": 55}, "thorough": {"runs": 120000, "wal
 LEVEL = "exploration"
 ASSUMPTIONS = [
     "bars of 1, 2 or 5 minutes (the frame and the pool price resampled with 'first'): the seven-minute window is the rows with timestamp in [t-6min, t] of the (resampled) squeeth frame - at most 7, 4 or 2 rows, fewer at the start of the data",
-    "three-valued verdicts: inside a relative band of 1e-9 around the 1.5x frontier, the 0.5 ETH floor and the half/full liquidation switch either answer is accepted (float log/pow in the TWAP)",
+    "three-valued verdicts: inside a relative band of 1e-11 around the 1.5x frontier, the 0.5 ETH floor and the half/full liquidation switch either answer is accepted (float log/pow in the TWAP)",
     "'must accept' is only demanded when every other precondition visibly holds (vault exists, wallet covers the amount with a 1e-5 margin, LP is in the pool, not lent, has liquidity)",
     "Asset.sub empties a wallet whose balance is within 1e-5 (relative) of the amount taken; such a debit is accepted as 'the stated amount'",
     "withdrawals and burns larger than the vault's collateral / debt are clamped to it; the clamped amount is the stated amount",
